@@ -301,8 +301,12 @@ Section MapFilterFlat.
   Definition mapi_spec (l : list (option A)) : list (option B) :=
     make_array (length l) (fun i => match nth_error l i with Some t => fi i t | None => None end).
 
-  (** ArrValue::filter: first an EAGER pass over self.iter() — a failing element leaves it (`break 'eager`),
-      a failing predicate returns the error — then, if left, the lazy pass over iter_lazy() from the start *)
+  (** ArrValue::filter BEFORE the repair of this session (kept as [filter_impl_old]): first an EAGER pass over
+      self.iter() — a failing element leaves it (`break 'eager`), a failing predicate returns the error — then, if
+      left, the lazy pass over iter_lazy() from the start.  Its RESULT equals the definition (proved below), but the
+      eager pass forced every element although neither the predicate nor the consumer needed it (seen by C03:
+      std.length(std.filter(function(x) true, [std.trace(..), ..])) printed the trace); since the fix the function
+      is the lazy pass alone. *)
   Inductive eager_res := EBreak | EErr | EOk (out : list (option A)).
   Fixpoint filter_eager (l : list (option A)) : eager_res :=
     match l with
@@ -317,11 +321,24 @@ Section MapFilterFlat.
                     end
         end
     end.
-  Definition filter_impl (l : list (option A)) : option (list (option A)) :=
+  Definition filter_impl_old (l : list (option A)) : option (list (option A)) :=
     match filter_eager l with
     | EOk out => Some out
     | EErr => None
     | EBreak => filter_strict p l
+    end.
+  (** ArrValue::filter as it is now: `for i in self.iter_lazy() { if filter.call(i.clone())? { out.push(i) } }` *)
+  Fixpoint filter_impl (l : list (option A)) : option (list (option A)) :=
+    match l with
+    | [] => Some []
+    | t :: r =>
+        match p t with
+        | None => None
+        | Some b => match filter_impl r with
+                    | None => None
+                    | Some out => Some (if b then t :: out else out)
+                    end
+        end
     end.
   (** SPEC std.filter (native in the reference implementations): the predicate is applied to every
       element, in order; the kept elements stay thunks *)
